@@ -245,16 +245,16 @@ def gen_cases(ctx):
             cases.append({"n": n, "u": u})
         L = dedup([{"n": n, "u": u} for u in loops_1d(n)])
         rng.shuffle(L)
-        cases += L[:ctx.scaled(60, 400)]
+        cases += L[:ctx.scaled(45, 400)]
         T = dedup([{"n": n, "u": u} for u in three_1d(n)])
         rng.shuffle(T)
-        cases += T[:ctx.scaled(50, 500)]
+        cases += T[:ctx.scaled(40, 500)]
     # 2-D without a loop: scalar / colon / slice in both positions
     two = []
     for n, m in itertools.product(ctx.scaled([1, 2, 3], [1, 2, 3, 4]), repeat=2):
         W1 = window_1d(n, 1) + [["int", -2], ["int", n + 2], ["sl", -2, n], ["sl", 1, n + 2]]
         W2 = window_1d(m, 1) + [["int", -2], ["int", m + 2], ["sl", -2, m], ["sl", 1, m + 2]]
-        for _ in range(ctx.scaled(45, 300)):
+        for _ in range(ctx.scaled(30, 300)):
             u, v = rng.choice(W1), rng.choice(W2)
             if rng.random() < 0.08:
                 u = rng.choice(three_1d(n, 1)[: (n + 3) ** 3])
@@ -263,7 +263,7 @@ def gen_cases(ctx):
     # non-empty in-range slice (an empty other dimension makes the generator skip the loop mapping
     # altogether, a different mechanism)
     for n, m in itertools.product(ctx.scaled([1, 2, 3], [1, 2, 3, 4]), repeat=2):
-        for _ in range(ctx.scaled(40, 250)):
+        for _ in range(ctx.scaled(28, 250)):
             pos = rng.randrange(2)
             dl, do = (n, m) if pos == 0 else (m, n)
             lp = rng.choice(loops_1d(dl))
